@@ -970,6 +970,9 @@ func runC16(c C16Case, cs *kit.CaseStats) error {
 			if d := renterBefore.Diff(renterAfter); d != "" {
 				return fmt.Errorf("%s failed on the renter side (%v) but the renter's wallet did not return to its pre-attempt state: %s", head, callErr, d)
 			}
+			if d := w.R.ProbeReservations(true); d != "" {
+				return fmt.Errorf("%s failed on the renter side (%v) but the renter's wallet still holds reservations: %s", head, callErr, d)
+			}
 			if followUp {
 				return nil
 			}
@@ -995,6 +998,14 @@ func runC16(c C16Case, cs *kit.CaseStats) error {
 			}
 			if d := renterBefore.Diff(renterAfter); d != "" {
 				return fmt.Errorf("%s failed (%v) and no contract was recorded, but the renter's wallet did not return to its pre-attempt state: %s", head, callErr, d)
+			}
+			// reservations of unconfirmed outputs do not show in either view:
+			// a clean attempt right after the failure must be fundable
+			if d := w.R.ProbeReservations(true); d != "" {
+				return fmt.Errorf("%s failed (%v) and no contract was recorded, but the renter's wallet still holds reservations: %s", head, callErr, d)
+			}
+			if d := w.H.ProbeReservations(false); d != "" {
+				return fmt.Errorf("%s failed (%v) and no contract was recorded, but the host's wallet still holds reservations: %s", head, callErr, d)
 			}
 			if (f.Kind == "" || f.Kind == "advance") && !followUp && !spentOnHost && !staleRev && c.Invalid == "" && c.Existing == "" && (c.Basis == "same" || c.Basis == "behind" || (c.Basis == "stale" && !c.OnFork)) {
 				// nothing stands in the way of this exchange
